@@ -246,9 +246,18 @@ static void one_op(void) {
     if (!lp_polynomial_is_constant(p) && lp_polynomial_top_variable(p) == hp_x[3]) {
       size_t d = lp_polynomial_degree(p), n = 0;
       lp_value_t* roots = (lp_value_t*)malloc((d + 1) * sizeof(lp_value_t));
-      lp_polynomial_roots_isolate(p, M, roots, &n);
+      /* sometimes the model also holds a value for the main variable (as in lp_polynomial_root_constraint_evaluate): it is
+         taken out for the isolation and must be back, unchanged, afterwards - also when there are no roots */
+      int with_y = chance(40);
+      if (with_y) lp_assignment_set_value(M, hp_x[3], a);
+      if (with_y && chance(50)) (void)lp_polynomial_root_constraint_evaluate(p, rnd(d + 1), (lp_sign_condition_t)rnd(6), M);
+      else lp_polynomial_roots_isolate(p, M, roots, &n);
       for (size_t k = 0; k < n; ++k) lp_value_destruct(&roots[k]);
       free(roots);
+      if (with_y) {
+        sb_begin("ev", "keep"); sb_sp(); sb_str("3="); sb_val(a); sb_arrow(); sb_sp(); sb_str("3="); sb_val(lp_assignment_get_value(M, hp_x[3])); sb_emit();
+        lp_assignment_set_value(M, hp_x[3], 0);
+      }
     }
     lp_polynomial_delete(p);
   } else {
